@@ -151,6 +151,19 @@ def run(ck):
         pass
     for l in corpus:
         reqs.append(("corpus", l, l[2:]))
+    export_env = {}
+    # `**` exponents with constant leaves whose value depends on variables (a conditional is constant iff its
+    # condition and both branches are): at points on both sides of the condition, away from the all-zero
+    # point where the analysis evaluates constant exponents; every route (getValue, resolveDependencies,
+    # copy, getCxxFormula evaluated as C++, model)
+    for f in ["x**(y>0 ? 2 : 3)", "2**(x<1 ? y : 3)", "x**(H(y)+1)", "x**max(y,2)", "x**(y<=0 ? 2 : 3)", "x**(y==0 ? 1 : 2)",
+              "x**(y>1 && z>1 ? 2 : 3)", "x**(!y>1 ? 2 : 3)", "x**-(y>0 ? 2 : 3)", "(x+1)**(y>0 ? 0.5 : 1.5)*z",
+              "x**(2>1 ? 2 : 3)", "x**min(3,y)", "x**(H(y-1)*2)", "z*x**(y>=2 ? 4 : -1)+y"]:
+        for env in ({"x": 1.5, "y": 2.5, "z": 3.0}, {"x": 1.5, "y": -2.5, "z": 3.0}, {"x": 0.75, "y": 0.5, "z": -1.0}):
+            reqs.append(("export", "P " + f, f))
+            export_env[len(reqs)] = env
+            reqs.append(("exportv", "V %s;%s" % (L.bind_str(env), f), f))
+            reqs.append(("directed", "V %s;%s" % (L.bind_str(env), f), f))
     g = L.Gen(rng, tab)
     for _ in range(n_valid):
         f = g.formula(8)
@@ -199,7 +212,6 @@ def run(ck):
     # under C++ semantics (c13lib.cxx_eval), has the value getValue() returns
     n_x = 700 if ck.quick else 15000
     gx = L.Gen(rng, tab)
-    export_env = {}
     for _ in range(n_x):
         f = gx.formula(6)
         env = L.random_point(rng)
@@ -211,18 +223,6 @@ def run(ck):
         reqs.append(("export", "P " + f, f))
         export_env[len(reqs)] = env
         reqs.append(("exportv", "V %s;%s" % (L.bind_str(env), f), f))
-    # `**` exponents with constant leaves whose value depends on variables (a conditional is constant iff its
-    # condition and both branches are): at points on both sides of the condition, away from the all-zero
-    # point where the analysis evaluates constant exponents; every route (getValue, resolveDependencies,
-    # copy, getCxxFormula evaluated as C++, model)
-    for f in ["x**(y>0 ? 2 : 3)", "2**(x<1 ? y : 3)", "x**(H(y)+1)", "x**max(y,2)", "x**(y<=0 ? 2 : 3)", "x**(y==0 ? 1 : 2)",
-              "x**(y>1 && z>1 ? 2 : 3)", "x**(!y>1 ? 2 : 3)", "x**-(y>0 ? 2 : 3)", "(x+1)**(y>0 ? 0.5 : 1.5)*z",
-              "x**(2>1 ? 2 : 3)", "x**min(3,y)", "x**(H(y-1)*2)", "z*x**(y>=2 ? 4 : -1)+y"]:
-        for env in ({"x": 1.5, "y": 2.5, "z": 3.0}, {"x": 1.5, "y": -2.5, "z": 3.0}, {"x": 0.75, "y": 0.5, "z": -1.0}):
-            reqs.append(("export", "P " + f, f))
-            export_env[len(reqs)] = env
-            reqs.append(("exportv", "V %s;%s" % (L.bind_str(env), f), f))
-            reqs.append(("directed", "V %s;%s" % (L.bind_str(env), f), f))
     gq = L.Gen(rng, tab)
     for _ in range(n_q):
         f = gq.formula(4)
